@@ -9,7 +9,8 @@ TEXT = ('Error discipline over the file-loading code: every Result carrying a sy
         'Err(UnsupportedChannelConfiguration) with no access to a missing channel; the load loop leaves only by break on '
         'UnexpectedEof or by returning the error. Sample fidelity, frame counts, streaming == loading and Symphonia\'s own '
         'behaviour on corrupt input are not decided.'
-        ' After every Decoder::seek the scheduler records the index the seek actually reached.')
+        ' After every Decoder::seek the scheduler records the index the seek actually reached.'
+        ' A frame behind the decoder position is reached by seeking back; the static loader appends every decoded packet.')
 TECHNIQUE = 'MIR error-discipline (result-flow) and path rules'
 
 FNS = ['sound::static_sound::data::from_file::<impl sound::static_sound::data::StaticSoundData>::from_boxed_media_source',
@@ -157,6 +158,29 @@ def run(ctx, R, tier):
     chan(F, R)
     eof(F, R)
     seek_landing(F, R)
+    load_append(F, R)
+
+
+def load_append(F, R):
+    """Loading keeps what it decodes: in the static loader's packet loop every successfully decoded packet's frames
+    (load_frames_from_buffer_ref) are appended to the result before the next packet is read."""
+    from ..rules import must_pass
+    b = F.body(FNS[0])
+    if not R.check(b is not None, 'B.C18.load', 'anchor', 'static loader not found'):
+        return
+    loops = b.loops()
+    lf = [x for x, t in b.calls() if (callee_path(t) or '').endswith('load_frames_from_buffer_ref')]
+    ap = [x for x, t in b.calls() if (callee_path(t) or '').split('::')[-1] in ('append', 'extend', 'extend_from_slice', 'push')
+          and 'std::vec::Vec' in (callee_path(t) or '')]
+    ok = len(loops) == 1 and len(lf) == 1 and bool(ap)
+    if ok:
+        L = loops[0]
+        ap_in = [x for x in ap if x in L['blocks']]
+        # from the decode of the packet's frames, the loop header is reached again only through the append
+        ok = bool(ap_in) and lf[0] in L['blocks'] and must_pass(b, [b.blocks[lf[0]]['term']['t']], [L['header']], ap_in) \
+            and any('load_frames_from_buffer_ref' in describe(b, b.blocks[x]['term']['args'][1], depth=8, at=x) for x in ap_in)
+    R.check(ok, 'B.C18.load', 'append', 'the static loader does not append the frames of every decoded packet to its result',
+            detail='frames.append(load_frames_from_buffer_ref(&buffer)?) in the packet loop', where=b.file)
 
 
 def seek_landing(F, R):
@@ -202,6 +226,36 @@ def seek_landing(F, R):
                     '(stores: %s): the following chunk is labelled with the wrong start frame' % (b.path, [d[:80] for _, d in stores]),
                     detail={'caller': b.path, 'recorded': 'result of Decoder::seek'}, where=b.where(sb))
     R.floor('B.C18.seek', n, 3)
+    # a frame that lies BEFORE the decoder's position can only be reached by seeking back: in frame_at_index every path on
+    # which `index < decoder_current_frame_index` holds passes the seek before it decodes
+    fb = F.body('sound::streaming::sound::decode_scheduler::DecodeScheduler::<Error>::frame_at_index')
+    if R.check(fb is not None, 'B.C18.seek', 'anchor:frame_at_index', 'frame_at_index not found'):
+        seeks = set(bb for bb, t in fb.calls() if (callee_path(t) or '') == SEEK)
+        decs = set(bb for bb, t in fb.calls() if (callee_path(t) or '') == 'sound::streaming::decoder::Decoder::decode')
+        ok = bool(seeks) and bool(decs)
+        tested = False
+        for p in explore(fb):
+            blocks = list(p.blocks)
+            behind = None
+            for bb, desc, lab in p.decisions:
+                if desc.startswith(('Lt(', 'Gt(', 'Le(', 'Ge(')) and 'decoder_current_frame_index' in desc:
+                    nm = desc.split('(')[0]
+                    first_is_index = not desc[len(nm) + 1:].lstrip().startswith('(*self).decoder_current_frame_index')
+                    v = bool_label(lab)
+                    if v is None:
+                        continue
+                    # (`<=` instead of `<` only adds a redundant seek when the two are equal: still "may lie before")
+                    lt = {'Lt': v, 'Le': v, 'Ge': not v, 'Gt': not v}[nm] if first_is_index else {'Gt': v, 'Ge': v, 'Le': not v, 'Lt': not v}[nm]
+                    behind = lt
+            if behind is not None:
+                tested = True
+            if behind is True and (set(blocks) & decs):
+                first_dec = min(blocks.index(x) for x in decs if x in blocks)
+                if not any(x in seeks and blocks.index(x) < first_dec for x in blocks if x in seeks):
+                    ok = False
+        R.check(ok and tested, 'B.C18.seek', 'frame_at_index:backward',
+                'frame_at_index decodes forward although the wanted frame lies before the decoder position (no seek on that path): a loop '
+                'wrap or a backward seek would read to the end of the file instead', detail='index < decoder_current_frame_index => seek ≺ decode')
 
 
 def err_paths(F, R):
